@@ -8,6 +8,7 @@ CONSTANTS
   FixSessErr = FALSE
   FixRet = FALSE
   FixAdd = FALSE
-  Depth = 26
+  Depth = 33
   Loop = FALSE
+  AddGate = TRUE
 CHECK_DEADLOCK FALSE
